@@ -447,7 +447,7 @@ package pipeline
 
 //@ func interpolateSlice[pipeline.Step,pipeline.Steps]
 //@   requires tf != nil
-//@   assigns @STEPS
+//@   assigns @STEPS, s[..]
 //@   ensures [same] ret == nil ==> (forall i int :: {s[i]} 0 <= i && i < len(s) ==> s[i] == old(s[i]))
 //@   loop 0
 //@     assigns @STEPS, s[..]
